@@ -25,6 +25,8 @@ use tracing::debug;
 mod client;
 mod codec;
 mod pool_tracker;
+#[cfg(eigerco_lumina_verif)]
+pub(crate) use pool_tracker::verif_hooks as pool_tracker_verif_hooks;
 
 use crate::p2p::P2pError;
 use crate::p2p::shrex::client::Client;
